@@ -311,11 +311,11 @@ theorem resume_world {k : Cont} {kc : CCont} (hk : ContRel I p S w0 k kc) {r1 : 
 theorem resume_rel {k : Cont} {kc : CCont} {ks : List Cont} {kcs : List CCont} (hk : ContRel I p S w0 k kc)
     (hks : List.Forall₂ (ContRel I p S w0) ks kcs) (hnc : k.create = none) {r1 : Evm.World × Evm.Halt} {h : Evm.Halt}
     {e : EndState} {full : Stores} {lg : List LogT} {bl : List (T × T)} {cr : List (Nat × List Nat)} {n : Nat}
-    (hres : haltWith h (e.data.map (·.eval I)) = r1.2)
+    {hc : List HCell} (hres : haltWith h (e.data.map (·.eval I)) = r1.2)
     (hdwf : ∀ b ∈ e.data, b.WF ∧ b.width = 8)
     (hsub : SubstOk I e.st) (hW : WRelM I S (wd w0 cr n) r1.1 (stoOf full) (evalLogs I lg) (balSem I w0 bl))
     (hbl : ChainWF bl) (hcr : CrOK S cr) :
-    RelC I p S w0 (resume full lg bl cr n k ks h e) (resumeWorld kc r1) (resumeFrame kc r1.2) kcs := by
+    RelC I p S w0 (resume full lg bl cr n hc k ks h e) (resumeWorld kc r1) (resumeFrame kc r1.2) kcs := by
   have hsucc : r1.2.isSuccess = haltOk h := by rw [← hres]; exact haltWith_isSuccess _ _
   have hdata : MemRel I (haltData h e.data) r1.2.data :=
     ⟨haltData_wf hdwf, by rw [← hres]; exact (haltWith_data I h e.data).symm⟩
@@ -347,20 +347,20 @@ theorem resume_rel {k : Cont} {kc : CCont} {ks : List Cont} {kcs : List CCont} (
   · -- the world
     cases hok : haltOk h
     · -- the callee failed: the call-time world and the snapshot
-      have hlg : (resume full lg bl cr n k ks h e).logs = k.snapLogs := by simp [resume, hok]
-      have hbl' : (resume full lg bl cr n k ks h e).bal = k.snapBal := by simp [resume, hok]
-      have hcr' : (resume full lg bl cr n k ks h e).created = k.snapCreated := by simp [resume, hok]
-      have hn' : (resume full lg bl cr n k ks h e).nonce = n := rfl
+      have hlg : (resume full lg bl cr n hc k ks h e).logs = k.snapLogs := by simp [resume, hok]
+      have hbl' : (resume full lg bl cr n hc k ks h e).bal = k.snapBal := by simp [resume, hok]
+      have hcr' : (resume full lg bl cr n hc k ks h e).created = k.snapCreated := by simp [resume, hok]
+      have hn' : (resume full lg bl cr n hc k ks h e).nonce = n := rfl
       rw [hlg, hbl', hcr', hn']
       refine (resume_world hk hsucc hok hW.created).congr (fun a _ => ?_)
       simp only [viewOf, resume, hok, Bool.false_eq_true, if_false]
       split
       · rename_i e'; rw [e']
       · rfl
-    · have hlg : (resume full lg bl cr n k ks h e).logs = lg := by simp [resume, hok]
-      have hbl' : (resume full lg bl cr n k ks h e).bal = bl := by simp [resume, hok]
-      have hcr' : (resume full lg bl cr n k ks h e).created = cr := by simp [resume, hok]
-      have hn' : (resume full lg bl cr n k ks h e).nonce = n := rfl
+    · have hlg : (resume full lg bl cr n hc k ks h e).logs = lg := by simp [resume, hok]
+      have hbl' : (resume full lg bl cr n hc k ks h e).bal = bl := by simp [resume, hok]
+      have hcr' : (resume full lg bl cr n hc k ks h e).created = cr := by simp [resume, hok]
+      have hn' : (resume full lg bl cr n hc k ks h e).nonce = n := rfl
       have hrw : resumeWorld kc r1 = r1.1 := by
         unfold resumeWorld; rw [hsucc, hok, hkc]; rfl
       rw [hlg, hbl', hcr', hn', hrw]
@@ -395,12 +395,12 @@ theorem stoOf_fullOf (cs : CState) (e : EndState) (a : Nat) :
 /-- the end of the run the frame `cs` reports with the end state `e` -/
 def endOf (cs : CState) (e : EndState) : CEnd :=
   { e, this := cs.this, stores := fullOf cs e, logs := cs.logs, bal := cs.bal, created := cs.created,
-    nonce := cs.nonce }
+    nonce := cs.nonce, hsto := cs.hsto }
 
 /-- what `frameEnd` does when a callee or a constructor halts (untagged) -/
 def frameEndH (cs : CState) (k : Cont) (ks : List Cont) (h : Evm.Halt) (e : EndState) : StepOutC :=
   match k.create with
-  | none => { next := [resume (fullOf cs e) cs.logs cs.bal cs.created cs.nonce k ks h e] }
+  | none => { next := [resume (fullOf cs e) cs.logs cs.bal cs.created cs.nonce cs.hsto k ks h e] }
   | some addr => createEnd cs (fullOf cs e) k ks h e addr
 
 theorem frameEnd_nil {cs : CState} {e : EndState} (h : cs.conts = []) :
@@ -414,7 +414,7 @@ theorem frameEnd_halt {cs : CState} {e : EndState} {k : Cont} {ks : List Cont} {
 
 theorem frameEnd_resume {cs : CState} {e : EndState} {k : Cont} {ks : List Cont} {h : Evm.Halt}
     (hc : cs.conts = k :: ks) (ho : e.out = .halt h) (ht : e.tag = .normal) (hk : k.create = none) :
-    frameEnd cs e = { next := [resume (fullOf cs e) cs.logs cs.bal cs.created cs.nonce k ks h e] } := by
+    frameEnd cs e = { next := [resume (fullOf cs e) cs.logs cs.bal cs.created cs.nonce cs.hsto k ks h e] } := by
   rw [frameEnd_halt hc ho ht]; unfold frameEndH; rw [hk]
 
 theorem frameEnd_other {cs : CState} {e : EndState} (hn : ¬ ∃ h, e.out = .halt h ∧ e.tag = .normal) :
@@ -656,15 +656,15 @@ theorem createEnd_rel {k : Cont} {kc : CCont} {ks : List Cont} {kcs' : List CCon
     · exact hsub.same rfl rfl
     · exact hR.mem
     · simp only [Bool.false_eq_true, if_false]; exact hdata
-    · have hlg : (resume (fullOf cs e) cs.logs cs.bal cs.created cs.nonce k ks h e).logs = k.snapLogs := by
+    · have hlg : (resume (fullOf cs e) cs.logs cs.bal cs.created cs.nonce cs.hsto k ks h e).logs = k.snapLogs := by
         simp [resume, hok]
-      have hbl' : (resume (fullOf cs e) cs.logs cs.bal cs.created cs.nonce k ks h e).bal = k.snapBal := by
+      have hbl' : (resume (fullOf cs e) cs.logs cs.bal cs.created cs.nonce cs.hsto k ks h e).bal = k.snapBal := by
         simp [resume, hok]
-      have hcr' : (resume (fullOf cs e) cs.logs cs.bal cs.created cs.nonce k ks h e).created = k.snapCreated := by
+      have hcr' : (resume (fullOf cs e) cs.logs cs.bal cs.created cs.nonce cs.hsto k ks h e).created = k.snapCreated := by
         simp [resume, hok]
-      show WRelM I S (wd w0 (resume (fullOf cs e) cs.logs cs.bal cs.created cs.nonce k ks h e).created cs.nonce) _ _
-        (evalLogs I (resume (fullOf cs e) cs.logs cs.bal cs.created cs.nonce k ks h e).logs)
-        (balSem I w0 (resume (fullOf cs e) cs.logs cs.bal cs.created cs.nonce k ks h e).bal)
+      show WRelM I S (wd w0 (resume (fullOf cs e) cs.logs cs.bal cs.created cs.nonce cs.hsto k ks h e).created cs.nonce) _ _
+        (evalLogs I (resume (fullOf cs e) cs.logs cs.bal cs.created cs.nonce cs.hsto k ks h e).logs)
+        (balSem I w0 (resume (fullOf cs e) cs.logs cs.bal cs.created cs.nonce cs.hsto k ks h e).bal)
       rw [hlg, hbl', hcr']
       refine (resume_world hk hsucc hok hW.created).congr (fun x _ => ?_)
       simp only [viewOf, resume, hok, Bool.false_eq_true, if_false]
@@ -703,11 +703,11 @@ theorem createEnd_rel {k : Cont} {kc : CCont} {ks : List Cont} {kcs' : List CCon
       · exact hR.mem
       · simp only [if_true]; exact MemRel.nil I
       · show WRelM I S (wd w0 ((a, code.map (· % 256)) :: cs.created) cs.nonce) _ _
-          (evalLogs I (resume (fullOf cs e) cs.logs cs.bal cs.created cs.nonce k ks h e).logs)
-          (balSem I w0 (resume (fullOf cs e) cs.logs cs.bal cs.created cs.nonce k ks h e).bal)
-        have hlg : (resume (fullOf cs e) cs.logs cs.bal cs.created cs.nonce k ks h e).logs = cs.logs := by
+          (evalLogs I (resume (fullOf cs e) cs.logs cs.bal cs.created cs.nonce cs.hsto k ks h e).logs)
+          (balSem I w0 (resume (fullOf cs e) cs.logs cs.bal cs.created cs.nonce cs.hsto k ks h e).bal)
+        have hlg : (resume (fullOf cs e) cs.logs cs.bal cs.created cs.nonce cs.hsto k ks h e).logs = cs.logs := by
           simp [resume, hok]
-        have hbl' : (resume (fullOf cs e) cs.logs cs.bal cs.created cs.nonce k ks h e).bal = cs.bal := by
+        have hbl' : (resume (fullOf cs e) cs.logs cs.bal cs.created cs.nonce cs.hsto k ks h e).bal = cs.bal := by
           simp [resume, hok]
         rw [hlg, hbl']
         refine (hW.setCode a _).congr (fun x _ => ?_)
